@@ -17,7 +17,10 @@
 (*       Fire           the timer of context.WithTimeout                   *)
 (*   standard.transport.serve / Shutdown / updateActive,                   *)
 (*   netpoll transporter.Shutdown -> netpoll server.Close                  *)
-(*       Dial, Accept   kernel backlog / accept loop (active + 1)          *)
+(*       Dial, Accept   kernel backlog / accept loop: Accept() returns,     *)
+(*                      updateActive(1), then the OnAccept / OnConnect     *)
+(*                      callbacks run in the accept loop                   *)
+(*       Spawn          `go func(){ handler; updateActive(-1) }()`          *)
 (*       NetpollCloseIdle   netpoll closes connections that are idle for   *)
 (*                      netpoll (accepted, nothing received, not in the    *)
 (*                      hertz loop) while Shutdown waits                   *)
@@ -48,6 +51,10 @@
 (*                      OkEnd; ResponseTruncated has no action)            *)
 (*   InFlightAwaited    Shutdown returning nil before the exit wait time   *)
 (*                      elapsed => no handler is still running             *)
+(*   AcceptedAwaited    ... and no connection whose acceptance was logged  *)
+(*                      (OnAccept on the standard transport, OnConnect on  *)
+(*                      both) before any Shutdown call is served later:    *)
+(*                      "accepted" binds at Accept, not at handler start   *)
 (*   CloseAnnounced     handler exit after the flip (IsRunning() false in  *)
 (*                      the handler, or HookStart/nil return logged        *)
 (*                      before) => response carries Connection: close      *)
@@ -85,7 +92,9 @@ CONSTANTS Conns,          \* connection ids
           ServerRun,      \* FALSE: Run is never called (shutdown of a server that is not running)
           CasLoserErrors, \* TRUE: the caller that loses the CAS reports an error (the repaired design);
                           \* FALSE: as written, `if !CAS { return }` returns nil
-          ExitCheckAfterHandler  \* TRUE as in the code; FALSE: negative configuration (check before the handler)
+          ExitCheckAfterHandler, \* TRUE as in the code; FALSE: negative configuration (check before the handler)
+          CountAtAccept   \* TRUE as in the code: updateActive(1) right after Accept(); FALSE: negative configuration
+                          \* (counted only when the connection's goroutine starts)
 
 -----------------------------------------------------------------------------
 (* vocabulary shared with ShutdownGen / ShutdownTrace *)
@@ -99,6 +108,8 @@ ConnKinds == {"sB",   \* request served completely before the shutdown call; cli
               "fR",   \* connected before, first request sent after the shutdown began
               "bW",   \* response writing in progress: 8 MiB body, client reads after the shutdown began
               "dD",   \* dialled after the shutdown began, while a busy connection holds it open
+              "aL",   \* request sent, connection held in the OnAccept callback until Shutdown returned (standard)
+              "cL",   \* request sent, connection held in the OnConnect callback until Shutdown returned
               "rR"}   \* seeded random timings: requests in a loop, handler sleeps, no gates
 HookKinds == {"fast", "slow", "beyond"}
 SecondKinds == {"none", "during", "after", "closed", "race"}
@@ -108,14 +119,17 @@ Slack(w) == IF 10 * w > 1000 THEN 10 * w ELSE 1000
 VARIABLES status, listening, active, conn, avail, sent, cc, rflag, outq, hook, spawned, deadline, pc, ret, early,
           flipBy,
           \* observer
-          oBegun, oReturned, oDial, oLate, oEnt, oExit, oAns, oMust, oHS, oHE, oCall, oRet, oBad
+          oBegun, oReturned, oDial, oLate, oEnt, oExit, oAns, oMust, oHS, oHE, oCall, oRet, oBad,
+          oPre,      \* connections whose acceptance was logged before any ShutdownCall
+          oEarly     \* some Shutdown call returned nil before the exit wait time: it vouches for oPre
 
 mvars == <<status, listening, active, conn, avail, sent, cc, rflag, outq, hook, spawned, deadline, pc, ret, early, flipBy>>
-ovars == <<oBegun, oReturned, oDial, oLate, oEnt, oExit, oAns, oMust, oHS, oHE, oCall, oRet>>
+onew == <<oPre, oEarly>>
+ovars == <<oBegun, oReturned, oDial, oLate, oEnt, oExit, oAns, oMust, oHS, oHE, oCall, oRet, onew>>
 vars == <<mvars, ovars, oBad>>
 
 None == "none"
-InServer == {"accepted", "reading", "handling", "flagread", "exitcheck", "writing", "idleKA"}
+InServer == {"onaccept", "accepted", "reading", "handling", "flagread", "exitcheck", "writing", "idleKA"}
 InHandler == {"handling", "flagread"}
 
 -----------------------------------------------------------------------------
@@ -128,13 +142,20 @@ ObsInit(cs, ks) ==
     /\ oMust = [c \in cs |-> FALSE]
     /\ oHS = {} /\ oHE = {}
     /\ oCall = [k \in ks |-> "no"] /\ oRet = [k \in ks |-> None]
+    /\ oPre = {} /\ oEarly = FALSE
 
-Keep(v) == UNCHANGED v
+\* Accept{c} / OnConnect{c}: logged by the callback the transport runs for an accepted connection, i.e. after the
+\* connection has been counted (standard: updateActive(1) precedes OnAccept; netpoll: OnConnect runs after the
+\* connection is registered and while it is locked for processing)
+\* (only acceptances logged before the first ShutdownCall are bound: they happen-before every Shutdown call)
+ObsAccept(c) == /\ oPre' = IF \A k \in DOMAIN oCall : oCall[k] = "no" THEN oPre \cup {c} ELSE oPre
+                /\ UNCHANGED oEarly
+                /\ UNCHANGED <<oBegun, oReturned, oDial, oLate, oEnt, oExit, oAns, oMust, oHS, oHE, oCall, oRet>>
 
 \* Dial{c}: logged by the client before it dials
 OkDial(c) == c \in DOMAIN oDial /\ ~oDial[c]
 ObsDial(c) == /\ oDial' = [oDial EXCEPT ![c] = TRUE] /\ oLate' = [oLate EXCEPT ![c] = oReturned]
-              /\ UNCHANGED <<oBegun, oReturned, oEnt, oExit, oAns, oMust, oHS, oHE, oCall, oRet>>
+              /\ UNCHANGED <<oBegun, oReturned, oEnt, oExit, oAns, oMust, oHS, oHE, oCall, oRet, onew>>
 
 \* HandlerEnter{c, r}: the handler of request r of connection c starts.  One request at a time per connection (the
 \* clients do not pipeline), numbered consecutively; NoAcceptAfterClose: never on a connection dialled after a
@@ -142,15 +163,16 @@ ObsDial(c) == /\ oDial' = [oDial EXCEPT ![c] = TRUE] /\ oLate' = [oLate EXCEPT !
 OkHandlerEnter(c, r) == /\ c \in DOMAIN oEnt /\ oDial[c]
                         /\ r = oEnt[c] + 1 /\ oExit[c] = oEnt[c] /\ oAns[c] = oEnt[c]
                         /\ ~oLate[c]
+                        /\ ~(oEarly /\ c \in oPre)                            \* AcceptedAwaited
 ObsHandlerEnter(c) == /\ oEnt' = [oEnt EXCEPT ![c] = @ + 1]
-                      /\ UNCHANGED <<oBegun, oReturned, oDial, oLate, oExit, oAns, oMust, oHS, oHE, oCall, oRet>>
+                      /\ UNCHANGED <<oBegun, oReturned, oDial, oLate, oExit, oAns, oMust, oHS, oHE, oCall, oRet, onew>>
 
 \* HandlerExit{c, r, running}: last statement of the handler; running = Engine.IsRunning() read just before
 OkHandlerExit(c, r) == c \in DOMAIN oEnt /\ r = oEnt[c] /\ oExit[c] = r - 1
 ObsHandlerExit(c, running) ==
     /\ oExit' = [oExit EXCEPT ![c] = @ + 1]
     /\ oMust' = [oMust EXCEPT ![c] = (~running \/ oBegun)]          \* CloseAnnounced
-    /\ UNCHANGED <<oBegun, oReturned, oDial, oLate, oEnt, oAns, oHS, oHE, oCall, oRet>>
+    /\ UNCHANGED <<oBegun, oReturned, oDial, oLate, oEnt, oAns, oHS, oHE, oCall, oRet, onew>>
 
 \* ResponseComplete{c, r, close, bytesOk}: the client read a whole response
 OkResponse(c, r, close, bytesOk) ==
@@ -158,14 +180,14 @@ OkResponse(c, r, close, bytesOk) ==
     /\ bytesOk                                                     \* InFlightCompleted: untruncated, the handler's bytes
     /\ oMust[c] => close                                           \* CloseAnnounced
 ObsResponse(c) == /\ oAns' = [oAns EXCEPT ![c] = @ + 1]
-                  /\ UNCHANGED <<oBegun, oReturned, oDial, oLate, oEnt, oExit, oMust, oHS, oHE, oCall, oRet>>
+                  /\ UNCHANGED <<oBegun, oReturned, oDial, oLate, oEnt, oExit, oMust, oHS, oHE, oCall, oRet, onew>>
 
 \* ShutdownCall{k}: logged before Shutdown is called.  A call made after the shutdown is known to have begun, or
 \* on a server that was never run, must report an error.
 OkCall(k) == k \in DOMAIN oCall /\ oCall[k] = "no"
 ObsCall(k, serverRun) ==
     /\ oCall' = [oCall EXCEPT ![k] = IF oBegun \/ ~serverRun THEN "mustErr" ELSE "free"]
-    /\ UNCHANGED <<oBegun, oReturned, oDial, oLate, oEnt, oExit, oAns, oMust, oHS, oHE, oRet>>
+    /\ UNCHANGED <<oBegun, oReturned, oDial, oLate, oEnt, oExit, oAns, oMust, oHS, oHE, oRet, onew>>
 
 \* ShutdownReturn{k, err, elapsed}: err = "nil" | "notRunning" | "other"; elapsed and wait in milliseconds
 OkReturn(k, err, elapsed, wait, allHooks) ==
@@ -176,18 +198,21 @@ OkReturn(k, err, elapsed, wait, allHooks) ==
     /\ (err = "nil" /\ elapsed < wait) =>
            /\ oHE = allHooks                                                    \* HooksAwaited
            /\ \A c \in DOMAIN oEnt : oExit[c] = oEnt[c]                         \* InFlightAwaited
-ObsReturn(k, err) ==
+ObsReturn(k, err, isEarly) ==
     /\ oRet' = [oRet EXCEPT ![k] = err]
     /\ oBegun' = (oBegun \/ err = "nil") /\ oReturned' = (oReturned \/ err = "nil")
-    /\ UNCHANGED <<oDial, oLate, oEnt, oExit, oAns, oMust, oHS, oHE, oCall>>
+    \* AcceptedAwaited: a nil return before the exit wait time says that every connection accepted before the call
+    \* has been drained
+    /\ oEarly' = (oEarly \/ (err = "nil" /\ isEarly))
+    /\ UNCHANGED <<oDial, oLate, oEnt, oExit, oAns, oMust, oHS, oHE, oCall, oPre>>
 
 \* HookStart{h} / HookEnd{h}
 OkHookStart(h, allHooks) == h \in allHooks /\ h \notin oHS /\ \E k \in DOMAIN oCall : oCall[k] # "no"
 ObsHookStart(h) == /\ oHS' = oHS \cup {h} /\ oBegun' = TRUE
-                   /\ UNCHANGED <<oReturned, oDial, oLate, oEnt, oExit, oAns, oMust, oHE, oCall, oRet>>
+                   /\ UNCHANGED <<oReturned, oDial, oLate, oEnt, oExit, oAns, oMust, oHE, oCall, oRet, onew>>
 OkHookEnd(h) == h \in oHS /\ h \notin oHE
 ObsHookEnd(h) == /\ oHE' = oHE \cup {h}
-                 /\ UNCHANGED <<oBegun, oReturned, oDial, oLate, oEnt, oExit, oAns, oMust, oHS, oCall, oRet>>
+                 /\ UNCHANGED <<oBegun, oReturned, oDial, oLate, oEnt, oExit, oAns, oMust, oHS, oCall, oRet, onew>>
 
 \* DialAfter{result}: a probe dialled after a nil return; the dial may complete in the kernel backlog
 OkDialAfter(result) == oReturned /\ result \in {"refused", "connectedButNeverServed"}
@@ -229,13 +254,20 @@ Dial(c) == /\ conn[c] = None
            /\ ObsDial(c) /\ Flag(OkDial(c), "Dial")
            /\ UNCHANGED <<status, listening, active, avail, sent, cc, rflag, outq, hook, spawned, deadline, pc, ret, early, flipBy>>
 
-\* standard: ln.Accept(); t.updateActive(1); go handler.  netpoll: server.OnRead -> onAccept
+\* standard: ln.Accept(); t.updateActive(1); OnAccept / OnConnect callbacks (they log Accept{c}).
+\* netpoll: server.OnRead -> onAccept (registers the connection), OnConnect runs with the connection locked.
 Accept(c) == /\ listening /\ conn[c] = "backlog"
-             /\ conn' = [conn EXCEPT ![c] = "accepted"] /\ active' = active + 1
-             /\ UNCHANGED <<status, listening, avail, sent, cc, rflag, outq, hook, spawned, deadline, pc, ret, early, flipBy, ovars, oBad>>
+             /\ conn' = [conn EXCEPT ![c] = "onaccept"] /\ active' = active + (IF CountAtAccept THEN 1 ELSE 0)
+             /\ ObsAccept(c) /\ UNCHANGED oBad
+             /\ UNCHANGED <<status, listening, avail, sent, cc, rflag, outq, hook, spawned, deadline, pc, ret, early, flipBy>>
+
+\* the callbacks return: `go func() { t.handler(ctx, conn); t.updateActive(-1) }()`
+Spawn(c) == /\ conn[c] = "onaccept"
+            /\ conn' = [conn EXCEPT ![c] = "accepted"] /\ active' = active + (IF CountAtAccept THEN 0 ELSE 1)
+            /\ UNCHANGED <<status, listening, avail, sent, cc, rflag, outq, hook, spawned, deadline, pc, ret, early, flipBy, ovars, oBad>>
 
 \* the client writes half a request head, the rest of it, or a whole request (no pipelining)
-ClientSend(c) == /\ conn[c] \in {"backlog", "accepted", "idleKA", "reading"} /\ outq[c] = None
+ClientSend(c) == /\ conn[c] \in {"backlog", "onaccept", "accepted", "idleKA", "reading"} /\ outq[c] = None
                  /\ \/ /\ avail[c] = None /\ sent[c] < MaxReq /\ conn[c] # "reading"
                        /\ \E a \in {"partial", "full"} : avail' = [avail EXCEPT ![c] = a]
                        /\ sent' = [sent EXCEPT ![c] = @ + 1]
@@ -347,7 +379,7 @@ HookWait(k) == /\ pc[k] = "hookwait"
 \* the caller logs ShutdownReturn{err, elapsed}; elapsed < wait is only possible when the deadline had not fired
 EmitReturn(k) == /\ pc[k] = "retpending"
                  /\ pc' = [pc EXCEPT ![k] = "returned"]
-                 /\ ObsReturn(k, ret[k]) /\ Flag(OkReturn(k, ret[k], IF early[k] THEN 0 ELSE 1, 1, Hooks), "Return")
+                 /\ ObsReturn(k, ret[k], early[k]) /\ Flag(OkReturn(k, ret[k], IF early[k] THEN 0 ELSE 1, 1, Hooks), "Return")
                  /\ UNCHANGED <<status, listening, active, conn, avail, sent, cc, rflag, outq, hook, spawned, deadline, ret, early, flipBy>>
 
 ---- (* hooks and timer *)
@@ -364,7 +396,7 @@ HookEnd(h) == /\ hook[h] = "running" /\ (h \in BeyondHooks => deadline = "fired"
 Fire == /\ deadline = "armed" /\ deadline' = "fired"
         /\ UNCHANGED <<status, listening, active, conn, avail, sent, cc, rflag, outq, hook, spawned, pc, ret, early, flipBy, ovars, oBad>>
 
-ConnStep(c) == StartRead(c) \/ RecvDone(c) \/ ReadFlag(c) \/ EmitExit(c) \/ ExitCheck(c) \/ WriteDone(c)
+ConnStep(c) == Spawn(c) \/ StartRead(c) \/ RecvDone(c) \/ ReadFlag(c) \/ EmitExit(c) \/ ExitCheck(c) \/ WriteDone(c)
 CallerStep(k) == Load(k) \/ Cas(k) \/ TransportClose(k) \/ TransportWait(k) \/ HookWait(k) \/ EmitReturn(k)
 
 Next == \/ Run \/ RunReturn \/ Fire
@@ -408,6 +440,9 @@ NotRunningErrors == \A k \in Callers : (pc[k] \in {"retpending", "returned"} /\ 
 NoAcceptAfterClose == \A c \in Conns : oLate[c] => conn[c] \in {None, "refused"}
 HooksAwaited == \A k \in Callers : (pc[k] \in {"retpending", "returned"} /\ k = flipBy /\ early[k]) => \A h \in Hooks : hook[h] = "done"
 InFlightAwaited == \A k \in Callers : (pc[k] \in {"retpending", "returned"} /\ k = flipBy /\ early[k]) => active = 0
+\* ... and then nothing that was accepted is still to be served (the listener is closed: nothing new is accepted)
+AcceptedAwaited == \A k \in Callers : (pc[k] \in {"retpending", "returned"} /\ k = flipBy /\ early[k]) =>
+                       \A c \in Conns : conn[c] \notin InServer
 \* the exit check runs after the flip whenever the handler's own reading of IsRunning() was false
 CloseAnnounced == \A c \in Conns : (conn[c] = "writing" /\ ~rflag[c]) => cc[c]
 \* a connection never ends with an entered request unanswered
